@@ -16,8 +16,10 @@
    Non-vacuity: proofs/ServerFrontProofs.v, Module Toy, instantiates every hypothesis and computes
    (Examples ex_tcp_genuine_accepted, ex_tcp_all_flips_silent, ex_tcp_all_prefixes_blocked, ex_udp_history, ...). *)
 From Coq Require Import ZArith NArith List.
-From M Require Import gen.Consts model.ServerFront proofs.ServerFrontProofs.
-From M Require Import model.Discover proofs.DiscoverProofs proofs.ServerFrontDiscoverInst.
+(* model/Discover.v (C07) has names of its own (udp_run, usession, ...): imported first, the front door's names win *)
+From M Require Import gen.Consts model.Discover proofs.DiscoverProofs.
+From M Require Import model.ServerFront proofs.ServerFrontProofs proofs.ServerFrontDiscoverInst.
+From M Require Import model.UserTable proofs.UserTableProofs.
 Import ListNotations.
 Open Scope Z_scope.
 
@@ -284,3 +286,108 @@ Theorem C05_attribution :
      hint h u = true).
 Proof. exact c05_attribution. Qed.
 Print Assumptions C05_attribution.
+
+(* ------------------------------------------------------------------------------------------------------------
+   MANAGEMENT EVENTS: which credentials are registered is not a constant.  model/UserTable.v:
+     compile_users hashpw es   the users buildState compiles from the user map es (admission rule + order + ids),
+     published hashpw init h   the generation in force after the server was started with init and the operator
+                               published the lists h (oldest first): Registry.SetUsers always replaces - the LAST
+                               list decides, the empty list included.
+   hashpw = cipher.HashPassword (any function).  The driver compares compile_users of the last published list
+   with the table of the real registry after every SetServerUsers. *)
+
+(* SetUsers: the last publication decides; an empty list leaves NO user *)
+Theorem C05_published_is_last :
+  forall (hashpw : bytes -> bytes -> bytes) (init : list entry) (h : list (list entry)) (l : list entry),
+  (published hashpw init (h ++ [l]) = compile_users hashpw l) /\
+  (published hashpw init (h ++ [nil]) = nil) /\
+  (published hashpw init nil = compile_users hashpw init).
+Proof.
+  exact (fun hashpw init h l => conj (published_last hashpw init h l)
+                                     (conj (published_empty_list hashpw init h) (published_none hashpw init))).
+Qed.
+Print Assumptions C05_published_is_last.
+
+(* the admission rule, as a fact about every user of every compiled generation: it stems from a present record of the
+   map, carries that record's non-empty name of at most MaxUserNameLen bytes which no other entry carries, and its
+   credential is a SECRET of that record: the hexadecimal hashed password of exactly CredentialLen bytes, or else
+   (hashed password empty) hashpw of a NON-EMPTY password *)
+Theorem C05_admission_rule :
+  forall (hashpw : bytes -> bytes -> bytes) (es : list entry) (c : cuser),
+  In c (compile_users hashpw es) ->
+  exists e : entry,
+    In e es /\ e_present e = true /\ c_name c = e_name e /\ e_name e <> [] /\
+    (length (e_name e) <= max_name_len)%nat /\ (count_name (e_name e) es <= 1)%nat /\
+    ((e_hashed e <> [] /\ hex_decode (e_hashed e) = Some (c_cred c) /\ length (c_cred c) = cred_len) \/
+     (e_hashed e = [] /\ e_password e <> [] /\ c_cred c = hashpw (e_password e) (e_name e))).
+Proof. exact compiled_has_secret. Qed.
+Print Assumptions C05_admission_rule.
+
+(* an entry without a secret contributes no credential: if no entry named n has a password or a hashed password,
+   no registered user is named n - knowing a NAME (which the user hint in every nonce reveals) gives nothing *)
+Theorem C05_no_secret_no_credential :
+  forall (hashpw : bytes -> bytes -> bytes) (es : list entry) (n : bytes),
+  (forall e : entry, In e es -> name_of e = n -> e_password e = [] /\ e_hashed e = []) ->
+  forall c : cuser, In c (compile_users hashpw es) -> c_name c <> n.
+Proof. exact no_secret_no_credential. Qed.
+Print Assumptions C05_no_secret_no_credential.
+
+(* entries that share a name register nobody under that name, whatever their passwords *)
+Theorem C05_duplicate_names_not_registered :
+  forall (hashpw : bytes -> bytes -> bytes) (es : list entry) (e1 e2 : entry),
+  In e1 es -> In e2 es -> e1 <> e2 -> name_of e1 = name_of e2 ->
+  forall c : cuser, In c (compile_users hashpw es) -> c_name c <> name_of e1.
+Proof. exact duplicate_names_skipped. Qed.
+Print Assumptions C05_duplicate_names_not_registered.
+
+(* C05_silent_after_reload.  kdf: credential -> cipher key of the current slot; seal k n m: the 72-byte header made with
+   key k.  Premise: key separation of the AEAD (what one key sealed, no other key opens).  For EVERY start list and
+   EVERY reload history: a first segment whose header was sealed with a credential whose key is not the key of a user
+   of the generation published LAST - removed one reload ago or ten, never registered, registered only under another
+   password - meets exactly the silence of C05_silent_tcp.  (TCP: a fresh connection.) *)
+Theorem C05_silent_after_reload :
+  forall (K : Type) (hashpw : bytes -> bytes -> bytes) (kdf : bytes -> K) (seal : K -> bytes -> bytes -> bytes)
+         (open_k : K -> bytes -> option bytes) (body_tcp : K -> bytes -> bytes -> option bytes) (hint : bytes -> cuser -> bool)
+         (cached : addr -> list N) (mandatory : bool) (le_ok : bytes -> bool) (le_decode : bytes -> bytes -> option bytes)
+         (sig_of : bytes -> N) (rcache : Type) (rc_dup : rcache -> N -> addr -> Z -> bool * rcache),
+  (forall (k k' : K) (n m : bytes), k' <> k -> open_k k' (seal k n m) = None) ->
+  forall (init : list entry) (h : list (list entry)) (rc : rcache) (src : addr) (input : bytes) (now : Z),
+  (exists cred n m : bytes,
+     firstn hdr_len input = seal (kdf cred) n m /\
+     forall u : cuser, In u (published hashpw init h) -> kdf (c_cred u) <> kdf cred) ->
+  let users := published hashpw init h in
+  let key_of := fun u : cuser => kdf (c_cred u) in
+  let r := fst (tcp_front N (d_open users key_of open_k) (d_body users key_of body_tcp) le_ok le_decode
+                          (d_cands users key_of open_k hint cached mandatory) sig_of rcache rc_dup rc src input now) in
+  (t_out r = [] /\ t_created r = [] /\ t_app r = [] /\ t_recv r = None /\ send_cipher N (t_recv r) = None) /\
+  (t_verdict r = V_blocked \/ t_verdict r = V_crypto \/ t_verdict r = V_replay).
+Proof. exact c05_silent_after_reload_tcp. Qed.
+Print Assumptions C05_silent_after_reload.
+
+(* the same for UDP histories after the reload.  The premise about the start state - the existing sessions belong to
+   users of the generation in force - is where a user removed WHILE it has a live session falls outside: the ciphers
+   of existing sessions are tried before discovery and do not consult the registry (the driver reports what the real
+   server does in that case). *)
+Theorem C05_silent_after_reload_udp :
+  forall (K : Type) (hashpw : bytes -> bytes -> bytes) (kdf : bytes -> K) (seal : K -> bytes -> bytes -> bytes)
+         (open_k : K -> bytes -> option bytes) (body_udp : K -> bytes -> bytes -> option bytes) (hint : bytes -> cuser -> bool)
+         (cached : addr -> list N) (mandatory : bool) (le_ok : bytes -> bool) (le_decode : bytes -> bytes -> option bytes)
+         (sig_of : bytes -> N) (rcache : Type) (rc_dup : rcache -> N -> addr -> Z -> bool * rcache),
+  (forall (k k' : K) (n m : bytes), k' <> k -> open_k k' (seal k n m) = None) ->
+  forall (init : list entry) (h : list (list entry)) (probe : event -> bool) (evs : list event) (st : ustate N rcache),
+  (forall s : usession N, In s (u_sessions st) -> In (us_key s) (reg_ids (published hashpw init h))) ->
+  (forall e : event, In e evs -> probe e = true ->
+     match e with
+     | Dgram d _ _ => exists cred n m : bytes, firstn hdr_len d = seal (kdf cred) n m /\
+                                           forall u : cuser, In u (published hashpw init h) -> kdf (c_cred u) <> kdf cred
+     | Clean _ => False
+     end) ->
+  forall (e : event) (r : udp_result N),
+  In (e, r) (fst (udp_run N (fun i : N => i) (d_open (published hashpw init h) (fun u : cuser => kdf (c_cred u)) open_k)
+                          (d_body (published hashpw init h) (fun u : cuser => kdf (c_cred u)) body_udp) le_ok le_decode
+                          (d_cands (published hashpw init h) (fun u : cuser => kdf (c_cred u)) open_k hint cached mandatory)
+                          sig_of rcache rc_dup st evs)) ->
+  probe e = true ->
+  (u_out r = [] /\ u_created r = [] /\ u_delivered r = []) /\ (u_verdict r = V_short \/ u_verdict r = V_undecryptable).
+Proof. exact c05_silent_after_reload_udp. Qed.
+Print Assumptions C05_silent_after_reload_udp.
